@@ -273,6 +273,45 @@ class Builder:
             return {"+": l + r, "-": l - r, "<": l < r, "<=": l <= r, ">": l > r, ">=": l >= r, "==": l == r, "!=": l != r}[op]
         raise KeyError(k)
 
+    def peek_guard(self, gd):
+        """value of `it.peek().is_some()` / `.is_none()` inside a loop over the iterator local `it`, per position class"""
+        ge = gd.get("e")
+        if "taken" not in gd or not isinstance(ge, dict):
+            return None
+        neg = False
+        ge = H.peel_ref(ge)
+        while ge.get("k") == "unary" and ge.get("op") == "not":
+            neg, ge = not neg, H.peel_ref(ge["e"])
+        if ge.get("k") == "mcall" and ge.get("name") in ("is_some", "is_none") and not ge.get("args"):
+            r = H.peel_ref(ge["recv"])
+            if r.get("k") == "mcall" and r.get("name") == "peek" and not r.get("args") and H.peel_ref(r["recv"]).get("k") == "local":
+                cls = self.bind.get("@peek:" + H.peel_ref(r["recv"])["name"])
+                if cls in ("#only", "#last", "#head", "#middle"):
+                    more = cls in ("#head", "#middle")
+                    v = more if ge["name"] == "is_some" else not more
+                    return v != neg
+        return None
+
+    def peek_aware(self, S, itname):
+        def guards(x):
+            if not isinstance(x, tuple) or not x:
+                return
+            if x[0] == "seq":
+                for y in x[1]:
+                    yield from guards(y)
+            elif x[0] == "alt":
+                for g, b in x[1]:
+                    yield g
+                    yield from guards(b)
+            elif x[0] in ("loop", "star", "star1", "sepby"):
+                yield from guards(x[1])
+        for g in guards(S):
+            ge = g.get("e")
+            if isinstance(ge, dict) and any(n_.get("k") == "mcall" and n_.get("name") == "peek" and H.peel_ref(n_["recv"]).get("k") == "local" and
+                                            H.peel_ref(n_["recv"])["name"] == itname for n_ in walk(ge)):
+                return True
+        return False
+
     def index_guard(self, gd):
         """value of a guard on the index of an enclosing enumerate loop - `i > 0`, `i >= 1`, `i != 0`, `i + 1 < n`,
         `i == xs.len() - 1` ... - when it is the same for every (index, length) of the position class being built"""
@@ -795,6 +834,8 @@ class Builder:
                     continue
                 iv = self.index_guard(gd)
                 if iv is None:
+                    iv = self.peek_guard(gd)
+                if iv is None:
                     iv = self.const_guard(gd)
                 if iv is not None and iv != gd.get("taken"):
                     continue
@@ -897,6 +938,28 @@ class Builder:
                         if iv.get("k") == "mcall" and iv["name"] == "len" and not iv["args"] and T.text(iv["recv"]) == base and n_["pat"]["name"] not in self.assigned:
                             lens.add(n_["pat"]["name"])
                 self.idx_lens[idx] = lens
+            lo_ = self.loop_over(S)
+            if idx is None and lo_ is not None and self.peek_aware(S[1], lo_):
+                # `while let Some(x) = it.next() { ..; if it.peek().is_some() { SEP } }`: only | head middle* last
+                m = a.state()
+                key_ = "@peek:" + lo_
+                old = self.bind.get(key_)
+                for cls, frm, to in (("#only", s, e), ("#head", s, m), ("#middle", m, m), ("#last", m, e)):
+                    self.bind[key_] = cls
+                    if frm is to:
+                        m2 = a.state()
+                        self.loop_ends.append(m2)
+                        self.build(S[1], frm, m2, fn_end, fname)
+                        a.add_eps(m2, to)
+                    else:
+                        self.loop_ends.append(to)
+                        self.build(S[1], frm, to, fn_end, fname)
+                    self.loop_ends.pop()
+                if old is None:
+                    self.bind.pop(key_, None)
+                else:
+                    self.bind[key_] = old
+                return
             if idx is not None and self.last_aware(S[1], idx, self.idx_lens.get(idx, set())):
                 # the body also tests for the last element: only | head middle* last
                 m = a.state()
